@@ -90,7 +90,7 @@ var pool = []poolObj{
 var smallPool = []string{"nil", "zero", "neg1", "big62", "str", "sym", "keyword", "list3", "dotted", "vector", "hash", "lambda", "in-stream", "values0"}
 
 // quickPool: the quick tier walks every pair of these for every function.
-var quickPool = []string{"nil", "zero", "three", "neg1", "big62", "double", "str", "sym", "keyword", "char", "list3", "dotted", "vector", "hash", "lambda", "in-stream"}
+var quickPool = []string{"nil", "zero", "three", "neg1", "big62", "double", "str", "sym", "keyword", "char", "list3", "list1", "dotted", "vector", "hash", "lambda", "in-stream"}
 
 var poolIndex = map[string]*poolObj{}
 
